@@ -103,13 +103,15 @@ type Violation struct {
 }
 
 type Part struct {
-	Name        string `json:"name"`
-	Strategy    string `json:"strategy"`
-	Exhaustive  bool   `json:"exhaustive"`
-	Space       string `json:"space,omitempty"`
-	Evaluations int64  `json:"evaluations"`
-	Nontrivial  int64  `json:"nontrivial"`
+	Name        string  `json:"name"`
+	Strategy    string  `json:"strategy"`
+	Exhaustive  bool    `json:"exhaustive"`
+	Space       string  `json:"space,omitempty"`
+	Evaluations int64   `json:"evaluations"`
+	Nontrivial  int64   `json:"nontrivial"`
+	WallS       float64 `json:"wall_s"`
 	random      bool
+	started     time.Time
 }
 
 const maxHashes = 12_000_000
@@ -151,8 +153,11 @@ func (r *Recorder) Require(classes ...string) { r.required = append(r.required, 
 // enumerates a duplicate-free space; random=true means cases are deduplicated
 // by hash for the distinct count.
 func (r *Recorder) NewPart(name, strategy string, random bool, exhaustive bool, space string) *Part {
-	p := &Part{Name: name, Strategy: strategy, Exhaustive: exhaustive, Space: space, random: random}
+	p := &Part{Name: name, Strategy: strategy, Exhaustive: exhaustive, Space: space, random: random, started: time.Now()}
 	r.mu.Lock()
+	if n := len(r.parts); n > 0 {
+		r.parts[n-1].WallS = time.Since(r.parts[n-1].started).Seconds()
+	}
 	r.parts = append(r.parts, p)
 	r.mu.Unlock()
 	return p
@@ -358,6 +363,9 @@ func (r *Recorder) Finish() int {
 		}
 	}
 
+	if n := len(r.parts); n > 0 && r.parts[n-1].WallS == 0 {
+		r.parts[n-1].WallS = time.Since(r.parts[n-1].started).Seconds()
+	}
 	var evals, nontriv int64
 	allExh := len(r.parts) > 0
 	for _, p := range r.parts {
